@@ -651,6 +651,25 @@ def rule_r5(chk, p, t, rid="C05.R5"):
         rets = [nn for nn in walk_no_nested(dm.node) if isinstance(nn, ast.Return)]
         if not rets or unparse(rets[-1].value) not in ("(month, day, hour, minute, second)", "month, day, hour, minute, second"):
             bad.append("returned tuple order")
+        # month lengths and the leap rule, tabulated over the supported years
+        from rsa.terms import NotEvaluable, eval_small
+
+        tbl = defs.get("days_in_month", [None])[0]
+        if not (isinstance(tbl, ast.List) and [getattr(x, "value", None) for x in tbl.elts] == [31, 28, 31, 30, 31, 30, 31, 31, 30, 31, 30, 31]):
+            bad.append("month-length table")
+        feb = [nn for nn in walk_no_nested(dm.node) if isinstance(nn, ast.Assign) and unparse(nn.targets[0]) == "days_in_month[1]"]
+        pmap = parents_map(dm.node)
+        if len(feb) != 1 or unparse(feb[0].value) != "29" or not isinstance(pmap.get(feb[0]), ast.If) or feb[0] not in pmap[feb[0]].body:
+            bad.append("February is not set to 29 days under exactly one leap-year test")
+        else:
+            tst = pmap[feb[0]].test
+            yr = dm.params[0]
+            try:
+                wrong = [y for y in range(1901, 2100) if bool(eval_small(tst, {yr: y})) != (y % 4 == 0 and (y % 100 != 0 or y % 400 == 0))]
+            except NotEvaluable as ex:
+                raise Undecided(f"leap-year test `{unparse(tst)}` cannot be tabulated ({ex})", tst) from None
+            if wrong:
+                bad.append(f"the leap-year test `{unparse(tst)}` is wrong for {wrong[:4]}{'...' if len(wrong) > 4 else ''} within 1901-2099 (the forward conversion counts a leap day there): every date after 28 February of such a year decodes one day off")
         if bad:
             r.violation(dm.qualname, "days2mdh:" + ";".join(bad), "days2mdh deviates from the cited algorithm: " + "; ".join(bad), dm.loc())
         else:
